@@ -489,7 +489,7 @@ def check(pid, tier, seed, replay=None):
         "correspondence_broken": [c[:400] for c in corr_broken],
     }
     ev = {
-        "property_id": pid, "tier": tier, "seed": seed, "level": prop.get("level", "proof"),
+        "property_id": pid, "tier": tier, "seed": seed, "level": (prop.get("level", "proof") if prop.get("level", "proof") in ("exploration", "fault_enumeration", "model_checking", "proof", "translation_validation", "other") else "proof"),
         "coverage": cov,
         "assumptions": prop.get("assumes", []),
         "wall_s": round(wall, 2),
